@@ -17,6 +17,7 @@ class Scenario:
         self.clock = {}
         self.rf = {}
         self.race_pairs = []
+        self._anc = {}
         self.built = False
         self.stats = {}
 
@@ -32,8 +33,8 @@ class Scenario:
         # program order (tree edges)
         for e in ev:
             cons.append(clk[e.id] > 0)
-            if e.parent is not None:
-                cons.append(clk[e.parent.id] < clk[e.id])
+            for par in e.parents:
+                cons.append(clk[par.id] < clk[e.id])
         # spawn/join order between threads
         by_t = {}
         for e in ev:
@@ -41,8 +42,6 @@ class Scenario:
         for a, b in self.order:
             for x in by_t.get(a, []):
                 for y in by_t.get(b, []):
-                    if y.parent is None or y.parent.tid != b:
-                        pass
                     cons.append(clk[x.id] < clk[y.id])
         mem = [e for e in ev if e.kind in ("R", "W", "U")]
         # distinct clocks for memory events of different threads (same-thread events are ordered by po on a path;
@@ -95,12 +94,25 @@ class Scenario:
 
     def may_precede(self, w, r):
         """same thread: w must be a po-ancestor of r"""
-        x = r.parent
-        while x is not None:
+        key = (w.id, r.id)
+        if key in self._anc:
+            return self._anc[key]
+        seen = set()
+        stack = list(r.parents)
+        res = False
+        while stack:
+            x = stack.pop()
+            if x.id in seen:
+                continue
+            seen.add(x.id)
             if x is w:
-                return True
-            x = x.parent
-        return False
+                res = True
+                break
+            if x.id < w.id:
+                continue          # event ids grow along program order
+            stack.extend(x.parents)
+        self._anc[key] = res
+        return res
 
     def same_loc(self, a, b):
         """z3 condition for 'same location', or None when statically different"""
